@@ -29,8 +29,8 @@ ASSUMPTIONS = [
 ]
 COMPONENTS = {"real": ["Transmitter._reset/_next/walk_forward", "Folds.as_time", "PartitionTimeRanges", "TradingEnv.reset/step"],
               "harness": ["delivery model", "seed sweeps"], "stub": []}
-PROBE_FLOORS = {"episode_length_exact": 300, "refused_when_nothing_fits": 30, "all_starts_reached": 100, "overlapping_folds": 50,
-                "walk_forward_run": 150, "sampling_span": 100, "length_equals_fold_size": 30, "foreign_prng_draws": 100}
+PROBE_FLOORS = {"episode_length_exact": 248, "refused_when_nothing_fits": 30, "all_starts_reached": 29, "overlapping_folds": 50,
+                "walk_forward_run": 29, "sampling_span": 21, "length_equals_fold_size": 30, "foreign_prng_draws": 57}
 
 PROFILE = {
     "n_min": 3, "n_max": 14, "n_long": 40, "p_long": 0.1, "c_min": 1, "c_max": 2, "p_bar": 1.0, "extras_max": 4,
